@@ -165,7 +165,7 @@ def run(ctx: Ctx) -> None:
         ctx.note("source_changed: " + ", ".join(changed[:12]))
         ctx.extra["modelled_functions_changed"] = changed
         boost = 3 if ctx.boost == 1 else 1     # (./check already boosts when the anchored files changed)
-    n = ctx.budget(quick=1200, thorough=12000) * boost
+    n = ctx.budget(quick=4000, thorough=40000) * boost
     cases, impl_outs = [], []
     for i, c in enumerate(load_corpus()):
         case = complete(ctx.subrng("corpus", i), c)
